@@ -683,6 +683,31 @@ pub fn run(tier: &str) -> i32 {
     st.add("iteration_patterns_and_stability_sequences_executed", work.into_inner());
     st.trans(0);
     long_histories(&st, if thorough { 64 } else { 16 }, 100_000);
+    if thorough {
+        // context, not a verdict: the small-scope search replayed under Miri (crate /verif/miri_splay)
+        for (flags, keys, label) in [("-Zmiri-tree-borrows", "3", "Tree Borrows"), ("", "2", "Stacked Borrows")] {
+            let out = std::process::Command::new("timeout")
+                .args(["1500", "cargo", "+nightly", "miri", "run", "--", keys])
+                .current_dir("/verif/miri_splay")
+                .env("MIRIFLAGS", flags)
+                .env("CARGO_NET_OFFLINE", "true")
+                .output();
+            let note = match out {
+                Err(e) => format!("Miri ({label}) could not be started: {e}"),
+                Ok(o) => {
+                    let so = String::from_utf8_lossy(&o.stdout).to_string();
+                    let se = String::from_utf8_lossy(&o.stderr).to_string();
+                    if let Some(l) = so.lines().find(|l| l.contains("MIRI-SPLAY-OK")) {
+                        format!("Miri ({label}), {keys} keys: no undefined behaviour reported: {l}")
+                    } else {
+                        let first = se.lines().find(|l| l.starts_with("error")).unwrap_or("no MIRI-SPLAY-OK line").to_string();
+                        format!("Miri ({label}), {keys} keys: {}", first.chars().take(240).collect::<String>())
+                    }
+                }
+            };
+            st.note(&format!("context (not a verdict): {note}"));
+        }
+    }
     let deepest = s.states.last().cloned().unwrap_or_default();
     st.sample(json!({"history_reaching_the_last_discovered_shape": op_json(&deepest), "shape": build(&deepest).key()}));
     st.sample(json!({"per_state_check": "consuming iteration under every front/back pattern of every length (partial consumption then drop), live-instance balance, reference stability under every sequence of <= 2 lookups"}));
